@@ -5,7 +5,7 @@ import (
 	"github.com/markusressel/fan2go/internal/zzv"
 )
 
-//zzv:bound B1 = real NewFan + AttachFanRpmCurveData -> ComputePwmBoundaries on RPM-curve maps with 1..3 (thorough 1..6) entries, keys any distinct 0..255, RPM values any whole numbers 0..10^6 (thorough: any float64 0..10^6): start PWM = least key with int(rpm) > 0 (255 if none), max PWM = least key attaining the largest int(rpm) (255 if all are 0), whenever the limit is not configured
+//zzv:bound B1 = real NewFan + AttachFanRpmCurveData -> ComputePwmBoundaries on RPM-curve maps with 1..3 (thorough 1..4) entries, keys any distinct 0..255, RPM values any whole numbers 0..10^6 (thorough, up to 3 entries: any float64 0..10^6, so that the truncation to whole RPM matters): start PWM = least key with int(rpm) > 0 (255 if none), max PWM = least key attaining the largest int(rpm) (255 if all are 0), whenever the limit is not configured
 //zzv:bound B2 = nil or empty data: error returned and no limit changed
 //zzv:bound B3 = all eight combinations of configured minPwm/startPwm/maxPwm (values any 0..255): configured values are what the getters return after attach
 //zzv:bound B4 = neverStop off: GetMinPwm() = 0 whatever is configured or measured
@@ -23,7 +23,7 @@ func zzCurveData(tag string, n int) (keys []int, rpms []float64, data map[int]fl
 		for j := 0; j < i; j++ {
 			zzv.Assume(keys[j] != keys[i])
 		}
-		if zzv.Thorough() {
+		if zzv.Thorough() && n <= 3 {
 			rpms[i] = zzv.Float64(tag + "rpm")
 			zzv.Assume(rpms[i] >= 0)
 			zzv.Assume(rpms[i] <= 1000000)
@@ -82,7 +82,7 @@ func zzConfiguredFan(combo int) (fan *HwMonFan, cMin, cStart, cMax *int) {
 
 func zzEntries() int {
 	if zzv.Thorough() {
-		return zzv.Choice("entries", 6) + 1
+		return zzv.Choice("entries", 4) + 1
 	}
 	return zzv.Choice("entries", 3) + 1
 }
